@@ -53,10 +53,13 @@ ConnP == {AnyT, Wd("A"), Wd("B")}
 ObjP  == {AnyO, TypeO("wl_callback"), TypeO("wl_surface"), TypeO("wl_*"), TypeO("wl_c*callback"), TypeO("wl_data_offer"), IdO(3), IdO(5), IdO(1),
           IdGenO(5, 0), IdGenO(5, 1), IdGenO(3, 1), IdO(S1), IdGenO(S1, 1), [k |-> "nil"],
           [k |-> "list", pos |-> <<TypeO("wl_callback"), IdO(4)>>, neg |-> <<IdGenO(5, 1)>>],
-          [k |-> "list", pos |-> <<>>, neg |-> <<TypeO("wl_display")>>]}
+          [k |-> "list", pos |-> <<>>, neg |-> <<TypeO("wl_display")>>],
+          \* a bracket list as one alternative of another list: its own exclusions stay its own
+          [k |-> "list", pos |-> <<TypeO("wl_surface"), [k |-> "list", pos |-> <<TypeO("wl_*")>>, neg |-> <<TypeO("wl_callback"), TypeO("wl_display")>>]>>, neg |-> <<>>]}
 NameP == {AnyT, Wd("sync"), Wd("new"), Wd("destroyed"), Wd("s*"), Wd("s*sync"), Wd("*e*"), Wd("delete_id"),
           [k |-> "list", pos |-> <<Wd("frame"), Wd("commit")>>, neg |-> <<>>],
-          [k |-> "list", pos |-> <<>>, neg |-> <<Wd("done")>>]}
+          [k |-> "list", pos |-> <<>>, neg |-> <<Wd("done")>>],
+          [k |-> "list", pos |-> <<Wd("commit"), [k |-> "list", pos |-> <<Wd("*e*")>>, neg |-> <<Wd("delete_id")>>]>>, neg |-> <<>>]}
 ArgI(hn, nm, v) == [k |-> "arg", hasname |-> hn, name |-> nm, val |-> v]
 IntV(n) == [k |-> "int", v |-> n]
 ObjV(o) == [k |-> "obj", o |-> o]
@@ -71,7 +74,9 @@ ArgsP == {[k |-> "noargs"], ArgsOf(<<>>, <<>>),
           ArgsOf(<<ArgI(FALSE, AnyT, WordV("wl_callback"))>>, <<>>), ArgsOf(<<ArgI(FALSE, AnyT, WordV("wl_region"))>>, <<>>),
           ArgsOf(<<>>, <<ArgI(FALSE, AnyT, WordV("wl_callback"))>>),
           ArgsOf(<<ArgI(TRUE, Wd("id"), AnyV), ArgI(FALSE, AnyT, WordV("wl_data_offer"))>>, <<>>),
-          ArgsOf(<<[k |-> "list", pos |-> <<ArgI(FALSE, AnyT, IntV(7)), ArgI(FALSE, AnyT, IntV(3))>>, neg |-> <<>>]>>, <<>>)}
+          ArgsOf(<<[k |-> "list", pos |-> <<ArgI(FALSE, AnyT, IntV(7)), ArgI(FALSE, AnyT, IntV(3))>>, neg |-> <<>>]>>, <<>>),
+          ArgsOf(<<ArgI(FALSE, AnyT, [k |-> "list", pos |-> <<IntV(3), [k |-> "list", pos |-> <<AnyV>>, neg |-> <<IntV(7), ObjV([k |-> "nil"])>>]>>, neg |-> <<>>])>>, <<>>),
+          ArgsOf(<<[k |-> "list", pos |-> <<ArgI(TRUE, Wd("id"), AnyV), [k |-> "list", pos |-> <<ArgI(TRUE, Wd("c*k"), AnyV)>>, neg |-> <<ArgI(FALSE, AnyT, IntV(7))>>]>>, neg |-> <<>>]>>, <<>>)}
 
 Pats == {[k |-> "pat", form |-> "bare", conn |-> c, obj |-> o] : c \in ConnP, o \in ObjP}
         \cup {[k |-> "pat", form |-> "full", conn |-> c, obj |-> o, name |-> n, args |-> a] :
